@@ -160,12 +160,23 @@ impl World for W2T {
         }
         let body: Vec<u8> = match mode {
             "bytes" => {
-                // arbitrary strings over the markup alphabet, and fully arbitrary bytes
+                // arbitrary strings over the markup alphabet (optionally with non-ASCII scalars), and fully arbitrary bytes
                 let n = rng.range(0, 40);
-                let arbitrary = rng.chance(1, 4);
-                (0..n)
-                    .map(|_| if arbitrary { rng.below(256) as u8 } else { *rng.pick(ALPHABET) })
-                    .collect()
+                match rng.below(4) {
+                    0 => (0..n).map(|_| rng.below(256) as u8).collect(),
+                    1 => {
+                        let mut s = String::new();
+                        for _ in 0..n {
+                            if rng.chance(1, 5) {
+                                s.push(random_scalar(rng));
+                            } else {
+                                s.push(*rng.pick(ALPHABET) as char);
+                            }
+                        }
+                        s.into_bytes()
+                    }
+                    _ => (0..n).map(|_| *rng.pick(ALPHABET)).collect(),
+                }
             }
             "big" => {
                 // long raw-text bodies: the script-data states are self-recursive per byte
@@ -192,6 +203,10 @@ impl World for W2T {
                 let mut text = to_string(&doc);
                 if rng.coin() {
                     text = messify(rng, &text);
+                }
+                // valid UTF-8 whose bytes, read one by one as Latin-1 chars, look like white space, letters, digits
+                if rng.chance(2, 3) {
+                    text = sprinkle_unicode(rng, &text);
                 }
                 text.into_bytes()
             }
